@@ -154,4 +154,30 @@ example :
                    ⟨3, ofAscii "m3", ofAscii "a=b", [1, 107, 1, 118]⟩])
      | none => false) = true := by decide +kernel
 
+/-! ## a page re-requested on a held cursor -/
+
+/-- **A re-requested page is the page at the requested position.** A cursor is held between requests (WaitTimeout > 0 or a capped
+limit); its `LogEventIterator` has looked at the record at `a` (the peek that exports the cursor's position); the client asks
+again with the `Pos` of an earlier answer, `cursor.ApplyState` repositions the JOURNAL iterator to `b` underneath — and the page
+served is exactly the page a fresh cursor at `b` serves: it starts with the event AT `b`, nothing stale in front, nothing skipped.
+Consumes the regenerated fact `leiKeepsNoEventAcrossCalls` (`LogEventIterator.Get` does not set the field its early return tests;
+a `lei.st = 1` after a successful decode flips it: the memoised event of the old position would be served first and the event
+at `b` skipped). -/
+theorem resent_page_is_the_page_at_the_requested_position (maxRec : Nat) (store : List Bytes) (a b lim : Nat) :
+    (leiPage maxRec store lim b (leiRepositioned (leiGet maxRec store a {}).1)).1 = (leiPage maxRec store lim b {}).1 := by
+  have h : Generated.C01.leiKeepsNoEventAcrossCalls = true := by decide
+  rw [leiGet_fresh h, leiRepositioned]
+
+/-- the other branch (vacuous on the current tree): with a memoising `Get` the re-requested page starts with the stale event of the
+old position and skips the event at the requested one — three stored events, cursor peeked at 2, page re-requested from 0 -/
+theorem cex_memoising_get_serves_stale_event : Generated.C01.leiKeepsNoEventAcrossCalls = false →
+    (leiPage 64 [(⟨1, [65], []⟩ : Event).marshal, (⟨2, [66], []⟩ : Event).marshal, (⟨3, [67], []⟩ : Event).marshal] 2 0
+        (leiRepositioned (leiGet 64 [(⟨1, [65], []⟩ : Event).marshal, (⟨2, [66], []⟩ : Event).marshal, (⟨3, [67], []⟩ : Event).marshal] 2 {}).1)).1
+      = [⟨3, [67], []⟩, ⟨2, [66], []⟩] := by decide +kernel
+
+/-- non-vacuity: the same scenario on the current tree gives the page at position 0 -/
+example : (leiPage 64 [(⟨1, [65], []⟩ : Event).marshal, (⟨2, [66], []⟩ : Event).marshal, (⟨3, [67], []⟩ : Event).marshal] 2 0
+    (leiRepositioned (leiGet 64 [(⟨1, [65], []⟩ : Event).marshal, (⟨2, [66], []⟩ : Event).marshal, (⟨3, [67], []⟩ : Event).marshal] 2 {}).1)).1
+      = [⟨1, [65], []⟩, ⟨2, [66], []⟩] := by decide +kernel
+
 end Logrange.Props.C01E2E
